@@ -208,7 +208,7 @@ func init() {
 			st := c.Stat("converted-get", "enumeration")
 			prefixSets := [][]string{nil, {"/"}, {"/a"}, {"/a", "/"}, {"/", "/a/b"}, {"/b"}}
 			var cshapes []c14Loc
-			for _, hs := range c14HostSets {
+			for _, hs := range append(append([][]string(nil), c14HostSets...), []string{"B.Com"}, []string{"a", "B.Com"}) {
 				for _, ps := range prefixSets {
 					cshapes = append(cshapes, c14Loc{Hosts: hs, Prefixes: ps})
 				}
@@ -234,7 +234,7 @@ func init() {
 						}
 						location.Reset(lcs)
 						for _, sl := range c14ServerLists(uniq) {
-							for _, h := range c14Hosts {
+							for _, h := range append(append([]string(nil), c14Hosts...), "B.Com") {
 								for _, u := range uris {
 									st.Execs++
 									got := location.Get(h, u, sl...)
@@ -282,6 +282,73 @@ func init() {
 			rec(nil)
 			st.States, st.Transitions, st.Nontrivial = st.Execs, st.Execs, idx
 			st.NOutcomes = int(idx)
+		}
+		// several servers whose location lists overlap: each server routes by its own list
+		if c.Want("servers-sharing-locations") && c.Shard == 0 {
+			st := c.Stat("servers-sharing-locations", "enumeration")
+			st.Bounds = "3 servers x location lists over {api (prefix /api), img (host img.com), any}: every assignment of 7 non-empty lists to the 3 servers (343), 4 requests per server"
+			locs := []c14Loc{{Name: "api", Prefixes: []string{"/api"}}, {Name: "img", Hosts: []string{"img.com"}}, {Name: "any"}}
+			lists := [][]string{{"api"}, {"img"}, {"any"}, {"api", "img"}, {"any", "api"}, {"img", "any"}, {"any", "img", "api"}}
+			addrs := []string{"127.0.0.1:0", "127.0.0.2:0", "127.0.0.3:0"}
+			for a := range lists {
+				for b := range lists {
+					for d := range lists {
+						cfg := &config.PikeConfig{
+							Caches:    []config.CacheConfig{{Name: "c1", Size: 100, HitForPass: "5m"}},
+							Upstreams: []config.UpstreamConfig{{Name: "uapi"}, {Name: "uimg"}, {Name: "uany"}},
+						}
+						for _, l := range locs {
+							cfg.Locations = append(cfg.Locations, config.LocationConfig{Name: l.Name, Upstream: "u" + l.Name, Hosts: l.Hosts, Prefixes: l.Prefixes})
+						}
+						for i, li := range []int{a, b, d} {
+							cfg.Servers = append(cfg.Servers, config.ServerConfig{Addr: addrs[i], Locations: lists[li], Cache: "c1"})
+						}
+						e := env.New(cfg)
+						procEnv = nil
+						e.Respond = func(oc *env.OriginCall) env.OriginResp { return env.Uncacheable(oc, "p") }
+						for i, li := range []int{a, b, d} {
+							for _, rq := range [][2]string{{"a.com", "/api/x"}, {"img.com", "/p.png"}, {"img.com", "/api/y"}, {"a.com", "/other"}} {
+								e.Events()
+								r := e.Do(env.Req{Addr: addrs[i], Method: "POST", Host: rq[0], URI: rq[1], Rid: "r"})
+								an := analyze(e.Events())
+								st.Execs++
+								best := c14Best(locs, lists[li], rq[0], rq[1])
+								calls := an.Reqs["r"].Calls
+								kase := map[string]interface{}{"server_lists": [][]string{lists[a], lists[b], lists[d]}, "server": i, "host": rq[0], "uri": rq[1]}
+								if best < 0 {
+									if r.Status < 500 || len(calls) != 0 {
+										c.Violation("servers-sharing-locations", "unrouted-request-not-refused", fmt.Sprintf("server %d lists %v: no listed location matches %s%s but status %d, %d origin contacts", i, lists[li], rq[0], rq[1], r.Status, len(calls)), nil, kase, nil)
+									}
+									continue
+								}
+								ok := r.Status == 200 && len(calls) == 1
+								if ok {
+									ok = false
+									for _, l := range locs {
+										if "u"+l.Name == calls[0].Upstream && c14Match(l, rq[0], rq[1]) && c14Class(l) == best {
+											for _, n := range lists[li] {
+												if n == l.Name {
+													ok = true
+												}
+											}
+										}
+									}
+								}
+								if !ok {
+									up := ""
+									if len(calls) > 0 {
+										up = calls[0].Upstream
+									}
+									c.Violation("servers-sharing-locations", "wrong-location-used", fmt.Sprintf("servers list %v / %v / %v; on server %d (%v) %s%s was answered %d via upstream %q; a class-%d location of its own list matches", lists[a], lists[b], lists[d], i, lists[li], rq[0], rq[1], r.Status, up, best), nil, kase, nil)
+								}
+							}
+						}
+						e.Close()
+					}
+				}
+			}
+			st.States, st.Transitions, st.Nontrivial = st.Execs, st.Execs, st.Execs
+			st.NOutcomes = int(st.Execs)
 		}
 		if c.Want("chain") {
 			st := c.Stat("chain", "enumeration")
